@@ -246,8 +246,15 @@ func (w *EvalRuleCondition) Do(ctx *Context, loc *Location) {
 
 	for _, bs := range qr.Bss {
 		for _, action := range w.Parent.Rule.Actions {
+			// Each action gets its own bindings: actions run
+			// concurrently, and executing one writes to its
+			// bindings (see maybeCopyEvent).
+			own := make(Bindings, len(bs))
+			for p, v := range bs {
+				own[p] = v
+			}
 			child := &ExecRuleAction{
-				Bindings: bs,
+				Bindings: own,
 				Act:      Action(action),
 				Parent:   w,
 			}
